@@ -11,6 +11,8 @@ package auth
 //@ func UserFromCtx
 //@   props C17
 //@   requires ctx != nil
-//@   modifies nothing
+//@   modifies cache.requestUser
 //@   ensures [no-user] !hasUser(ctx) ==> err == ErrNotAuthenticated && result == nil
 //@   ensures [user]    err == nil ==> hasUser(ctx)
+//@   defines [request-user] err == nil ==> cache.requestUser == result
+//@   defines [no-request-user] err != nil ==> cache.requestUser == old(cache.requestUser)
